@@ -7,6 +7,9 @@ import re
 import time
 
 VERIF = os.path.dirname(os.path.dirname(os.path.abspath(__file__)))
+TOTAL_BUDGET_S = 900          # wall-clock budget of one check run for all native replays together
+_T0 = [time.time()]           # (set when the first replay of the run starts)
+_started = [False]
 
 
 def _slug(s):
@@ -14,6 +17,8 @@ def _slug(s):
 
 
 def write_replay(prop, ob, seed=0):
+    if not _started[0]:
+        _T0[0], _started[0] = time.time(), True
     rdir = os.path.join(VERIF, "replays")
     if os.environ.get("SYMJNP_EVIDENCE_DIR"):  # runs on scratch copies keep their output out of /verif/replays
         rdir = os.path.join(VERIF, "replays", "scratch-" + os.path.basename(os.environ.get("VERIF_REPO", "repo")))
@@ -24,7 +29,11 @@ def write_replay(prop, ob, seed=0):
            "native": None, "confirmed": False, "written": time.strftime("%Y-%m-%dT%H:%M:%S")}
     try:
         from . import native
-        rec["native"] = native.replay_obligation(ob, seed=seed)
+        if time.time() - _T0[0] > TOTAL_BUDGET_S:
+            # (the first replays of a run get the time; a long list of failing obligations is not replayed one by one)
+            rec["native"] = {"confirmed": False, "note": f"not replayed: the run's total replay budget of {TOTAL_BUDGET_S} s is used up"}
+        else:
+            rec["native"] = native.replay_obligation(ob, seed=seed)
         rec["confirmed"] = bool(rec["native"] and rec["native"].get("confirmed"))
     except Exception as ex:  # replay machinery must never turn a refutation into a crash
         rec["native"] = {"error": f"{type(ex).__name__}: {ex}"}
